@@ -66,10 +66,23 @@ func runC12(c *eng.Ctx) {
 		c.Check(!inMapLoop, "balanceAssignmentsForStream called from "+ir.FuncKey(s.Fn), c.Pos(s.Instr), "not inside a map range (sorted iterator callback or straight-line code)", "a stream is rebalanced once per element of a map range: the result depends on map iteration order and differs between servers")
 	}
 	if fn := c.Fn("server.rangeStreamsOrdered"); fn != nil {
-		ok := len(eng.CallsIn(fn, "sort.Strings")) == 1
+		// the keys go through a sort (sort.Strings / slices.Sort on the collected keys, or slices.Sorted over the key
+		// sequence) and the callbacks run over the sorted keys, not inside a range over the map itself
+		ok := len(eng.CallsIn(fn, "sort.Strings", "slices.Sort", "slices.Sorted", "sort.Sort", "slices.SortFunc")) == 1
+		for _, ml := range eng.MapLoops(fn) {
+			for blk := range ml.Body {
+				for _, in := range blk.Instrs {
+					if call, isCall := in.(*ssa.Call); isCall && !call.Call.IsInvoke() {
+						if _, isParam := call.Call.Value.(*ssa.Parameter); isParam {
+							ok = false // the callback is invoked in map order
+						}
+					}
+				}
+			}
+		}
 		c.Check(ok, "rangeStreamsOrdered sorts before calling back", p.Pos(fn.Pos()), "sort.Strings(keys) precedes the callbacks", "rangeStreamsOrdered no longer sorts the keys")
 		if ok {
-			srt := eng.CallsIn(fn, "sort.Strings")[0].(ssa.Instruction)
+			srt := eng.CallsIn(fn, "sort.Strings", "slices.Sort", "slices.Sorted", "sort.Sort", "slices.SortFunc")[0].(ssa.Instruction)
 			eng.Instrs(fn, func(in ssa.Instruction) {
 				if call, ok := in.(*ssa.Call); ok && eng.Param("f")(call.Call.Value) {
 					g, w := eng.PrecededBy(fn, call, func(x ssa.Instruction) bool { return x == srt })
@@ -673,7 +686,7 @@ func ruleGroupBookkeeping(c *eng.Ctx) {
 				okMem = g && len(isMember) > 0
 			}
 		}
-		okCopy := exists(fn, isBuiltin("copy", nil, nil))
+		okCopy := exists(fn, isBuiltin("copy", nil, nil)) || len(eng.CallsIn(fn, "slices.Clone", "bytes.Clone")) > 0
 		c.Check(okMem && okCopy, "assignments are served to members, as a filled copy", p.Pos(fn.Pos()), "success only when consumerID is a member; copy(dst, partitions) per stream", "GetAssignments serves a non-member, or hands out freshly made slices without copying the partitions into them (every partition reads as 0)")
 	}
 	for _, k := range []string{"server.(*consumerGroup).assignPartition", "server.(*consumerGroup).StreamDeleted$1"} {
